@@ -21,6 +21,7 @@ import (
 	"io"
 	"math/big"
 	"reflect"
+	"runtime/debug"
 	"strings"
 
 	"go.dedis.ch/fixbuf"
@@ -121,7 +122,7 @@ type pvScen struct {
 	c        *big.Int // global challenge (observed)
 	dec      []*pvss.PubVerShare
 	decL     []pvLog
-	bindFlag string // "<bindEnc><bindDec>" as probed on the real code
+	bindFlag string     // "<bindEnc><bindDec>" as probed on the real code
 	vs       []*big.Int // the dealer's proof nonces (replayed random stream)
 }
 
@@ -329,6 +330,71 @@ func c13OffsetDealer(r *pvRun, sc *pvScen, rng *kc.Rng) {
 			map[string]any{"group": h.name, "n": n, "t": sc.t, "i": i, "j": j})
 	} else if others != n-2 {
 		r.c.Unshown("harness:c13-offset-dealer", fmt.Sprintf("%s: n=%d: the %d unaltered shares of the dealer-built batch should verify, %d do", h.name, n, n-2, others), nil)
+	}
+}
+
+// c13WeakFS: a trustee that knows its key but wants a WRONG decrypted share accepted. The decryption proof is a
+// Fiat–Shamir proof whose statement contains a value the prover picks itself (the decrypted share): if the
+// challenge does not cover every part of statement and commitment, the part left out can be solved for after
+// the challenge is known. Two attempts, each of which must be refused:
+//   "V last":  commit (VG = vG, VH arbitrary), learn c, r = v - c·x, then V' = r^-1 (VH - c·sX);
+//   "VH last": pick a wrong V', commit VG = vG, learn c, r = v - c·x, then VH = r·V' + c·sX.
+// The challenge the code expects is read off the code itself: VerifyDecShare is called on a dummy proof and
+// the digest it computes is recorded by the suite's hash wrapper.
+func c13WeakFS(r *pvRun, sc *pvScen, rng *kc.Rng) {
+	h := sc.h
+	if len(sc.enc) == 0 {
+		return
+	}
+	i := rng.Intn(sc.n)
+	x := h.sc(sc.xs[i])
+	X, enc := sc.X[i], sc.enc[i]
+	G := h.g.Point().Base()
+	for _, hyp := range []string{"V-last", "VH-last"} {
+		v := h.sc(pvNonzero(rng, h.q))
+		VG := h.g.Point().Mul(v, nil)
+		oracle := func(V, VH kyber.Point) kyber.Scalar {
+			sc.su.digests = nil
+			dummy := &pvss.PubVerShare{S: share.PubShare{I: enc.S.I, V: V}, P: dleq.Proof{C: h.g.Scalar().Zero(), R: h.g.Scalar().Zero(), VG: VG, VH: VH}}
+			_ = pvss.VerifyDecShare(sc.su, nil, X, enc, dummy)
+			if len(sc.su.digests) == 0 {
+				return nil
+			}
+			return h.g.Scalar().Pick(sc.su.XOF(sc.su.digests[len(sc.su.digests)-1]))
+		}
+		var V, VH kyber.Point
+		var c, rr kyber.Scalar
+		switch hyp {
+		case "V-last":
+			VH = h.pt(pvNonzero(rng, h.q))
+			c = oracle(G, VH)
+			if c == nil {
+				continue
+			}
+			rr = h.g.Scalar().Sub(v, h.g.Scalar().Mul(c, x))
+			V = h.g.Point().Mul(h.g.Scalar().Inv(rr), h.g.Point().Sub(VH, h.g.Point().Mul(c, enc.S.V)))
+		case "VH-last":
+			V = h.pt(pvNonzero(rng, h.q))
+			c = oracle(V, G)
+			if c == nil {
+				continue
+			}
+			rr = h.g.Scalar().Sub(v, h.g.Scalar().Mul(c, x))
+			VH = h.g.Point().Add(h.g.Point().Mul(rr, V), h.g.Point().Mul(c, enc.S.V))
+		}
+		truth := h.g.Point().Mul(h.g.Scalar().Inv(x), enc.S.V)
+		if V.Equal(truth) {
+			continue
+		}
+		forged := &pvss.PubVerShare{S: share.PubShare{I: enc.S.I, V: V}, P: dleq.Proof{C: c, R: rr, VG: VG, VH: VH}}
+		var err error
+		pvGuard(r.c, "VerifyDecShare/weak-fiat-shamir", func() { err = pvss.VerifyDecShare(sc.su, nil, X, enc, forged) })
+		r.c.Eval(1)
+		r.c.CountKind(h.name + ":weak-fs:" + hyp)
+		if err == nil {
+			r.c.Violation("C13:VerifyDecShare:weak-fiat-shamir:"+hyp, fmt.Sprintf("%s: n=%d t=%d: trustee %d gets a wrong decrypted share accepted: the challenge does not cover the part of the proof it fixed last (%s)", h.name, sc.n, sc.t, i, hyp),
+				map[string]any{"group": h.name, "n": sc.n, "t": sc.t, "trustee": i, "attack": hyp})
+		}
 	}
 }
 
@@ -1132,7 +1198,7 @@ func c13Dleq(r *pvRun, h *shG, rng *kc.Rng, count int) {
 func pvGuard(c *kc.Ctx, what string, f func()) {
 	defer func() {
 		if r := recover(); r != nil {
-			c.Violation("C13:panic:"+what, fmt.Sprintf("the real code panicked during %s: %v", what, r), nil)
+			c.Violation("C13:panic:"+what, fmt.Sprintf("the real code panicked during %s: %v", what, r), map[string]any{"stack": string(debug.Stack())})
 		}
 	}()
 	f()
@@ -1193,6 +1259,7 @@ func runC13(c *kc.Ctx) {
 					}
 					sc.bindFlag = probe
 					c13OffsetDealer(r, sc, rng.Fork(fmt.Sprint("offset", n, t, rep)))
+					c13WeakFS(r, sc, rng.Fork(fmt.Sprint("weakfs", n, t, rep)))
 					srng := rng.Fork(fmt.Sprint("mut", n, t, rep))
 					stage2 = append(stage2, func() { c13Stage2(r, sc, srng, qh) })
 					stage3 = append(stage3, st3{sc, rng.Fork(fmt.Sprint("rec", n, t, rep)), n <= exhN})
